@@ -220,6 +220,11 @@ class Engine(ExprMixin, CallMixin):
                 if h2:
                     h2(self, vs[0], v, s, node)
                 return None
+            if isinstance(vs[0], VObj) and len(vs) > 1:
+                key, m = self.src.method(vs[0].cls, '__setitem__')
+                if m is not None and key in self.reg.fns:
+                    return [('raise', a, b.exc) if isinstance(b, Raised) else ('fall', a, None)
+                            for a, b in self.call_key(key, m, [vs[0], vs[1], v], {}, s, node)]
             raise Refuse(f"subscript store on {vs[0]!r} at line {getattr(node, 'lineno', '?')}")
         raise Refuse(f"assignment target {type(t).__name__}")
 
@@ -253,6 +258,10 @@ class Engine(ExprMixin, CallMixin):
                         if r is None:
                             if isinstance(vs[0], VOpaque):
                                 r = [('fall', s1, None)] + [('raise', a, b.exc) for a, b in self.maybe_raise(s1, 'del', n)]
+                            elif isinstance(vs[0], VObj) and self.src.method(vs[0].cls, '__delitem__')[0] in self.reg.fns:
+                                key, m = self.src.method(vs[0].cls, '__delitem__')
+                                r = [('raise', a, b.exc) if isinstance(b, Raised) else ('fall', a, None)
+                                     for a, b in self.call_key(key, m, [vs[0], vs[1]], {}, s1, n)]
                             else:
                                 raise Refuse(f"del on {vs[0]!r}")
                         nxt.extend(r)
@@ -539,6 +548,8 @@ class Engine(ExprMixin, CallMixin):
                     it = r
             if isinstance(it, (VList, VTuple)) and not (it.items and isinstance(it.items[0], str)):
                 outs.extend(self.unroll_for(n, s1, list(it.items)))
+            elif isinstance(it, VSeq):
+                outs.extend(self.indexed_for(n, s1, it))
             else:
                 outs.extend(self.symbolic_for(n, s1, it))
         return outs
@@ -563,6 +574,55 @@ class Engine(ExprMixin, CallMixin):
             if len(cur) > self.max_paths:
                 raise Refuse("path explosion in unrolled for")
         outs.extend(('fall', s, None) for s in cur)
+        return outs
+
+    def indexed_for(self, n, st, it):
+        """for over a symbolic-length sequence, as a while loop over a ghost index `__for_i` (s.g('__for_i') in
+        invariants): init inv(0); head: 0 <= i <= len, inv(i); body on seq[i] for i < len must re-establish inv(i+1);
+        exit with i == len.  Terminates: the sequence is finite (the body must not mutate it: it is a value here)."""
+        k, L = self.loop_contract(n)
+        tag = f"{self.cur_key}#loop{k}"
+        if L is None:
+            raise Refuse(f"for-loop {k} of {self.cur_key} (line {n.lineno}) over a sequence has no loop contract")
+        self.stats['loops'] += 1
+        st.ghost['__for_i'] = lift(0)
+        ns0 = NS(st.env, self.entry_env, st, self.entry_state)
+        for idx, inv in enumerate(L.invariant):
+            self.oblige(f"{tag}.inv{idx}.init", st, inv(ns0), kind='inv-init')
+        h = self.havoc_for_loop(n, st, L)
+        i = fresh(Int, 'i')
+        h.ghost['__for_i'] = i
+        h.assume(z3.And(i.t >= 0, i.t <= z3.Length(it.t)))
+        nsh = NS(h.env, self.entry_env, h, self.entry_state)
+        for inv in L.invariant:
+            h.assume(inv(nsh))
+        for hint in L.hints:
+            h.assume(hint(nsh))
+        outs = []
+        ex = h.fork()
+        ex.assume(i.t == z3.Length(it.t))
+        nse = NS(ex.env, self.entry_env, ex, self.entry_state)
+        for hint in L.exit_hints:
+            ex.assume(hint(nse))
+        if self.feasible(ex):
+            outs.append(('fall', ex, None))
+        b = h.fork()
+        b.assume(i.t < z3.Length(it.t))
+        if not self.feasible(b):
+            return outs
+        self.assign_target(n.target, lift(it.t[i.t]), b, n)
+        for kind, s3, pl in self.block(n.body, b):
+            if kind in ('fall', 'continue'):
+                s3.ghost['__for_i'] = i + 1
+                ns3 = NS(s3.env, self.entry_env, s3, self.entry_state)
+                for hint in L.hints:
+                    s3.assume(hint(ns3))
+                for idx, inv in enumerate(L.invariant):
+                    self.oblige(f"{tag}.inv{idx}.preserved", s3, inv(ns3), kind='inv-preserved')
+            elif kind == 'break':
+                outs.append(('fall', s3, None))
+            else:
+                outs.append((kind, s3, pl))
         return outs
 
     def symbolic_for(self, n, st, it):
